@@ -73,6 +73,12 @@ fn cmp(c: Cons, x: (u8, char), y: (u8, char)) -> (Ordering, Option<Ordering>, bo
 /// wire observation: a one-cell MSM1 message of constellation c with descriptor d
 /// Ok(Some(position)) built (exactly one signal-mask bit set, at `position`, decodes back to d), Ok(None) refused with InvalidSignalId
 fn wire_position(c: Cons, d: (u8, char), sat: u8) -> Result<Option<u8>, (String, String)> {
+    match catch(|| wire_position_inner(c, d, sat)) {
+        Ok(r) => r,
+        Err(p) => Err((panic_signature(&p), format!("{} descriptor {:?}: building a one-cell MSM1 message panicked: {}", c.name(), d, p))),
+    }
+}
+fn wire_position_inner(c: Cons, d: (u8, char), sat: u8) -> Result<Option<u8>, (String, String)> {
     let corp = msggen::corpus_get();
     let number = c.base() + 1;
     let tc = corp.of(number).ok_or_else(|| ("c18:harness".to_string(), format!("no corpus for {}", number)))?;
@@ -111,6 +117,12 @@ fn viol(sig: String, msg: String, c: Cons, ds: &[(u8, char)]) -> Violation {
 
 /// order oracle on a triple
 fn order_oracle(c: Cons, x: (u8, char), y: (u8, char), z: (u8, char)) -> Result<(), (String, String)> {
+    match catch(|| order_oracle_inner(c, x, y, z)) {
+        Ok(r) => r,
+        Err(p) => Err((panic_signature(&p), format!("{}: comparing {:?}, {:?}, {:?} panicked: {}", c.name(), x, y, z, p))),
+    }
+}
+fn order_oracle_inner(c: Cons, x: (u8, char), y: (u8, char), z: (u8, char)) -> Result<(), (String, String)> {
     let n = c.name();
     let px = c.pos_of(x.0, x.1);
     let py = c.pos_of(y.0, y.1);
@@ -456,6 +468,12 @@ pub fn run(ctx: &Ctx, replay: Option<&J>) -> CheckResult {
 }
 
 fn membership_only(c: Cons, d: (u8, char)) -> Result<(), (String, String)> {
+    match catch(|| membership_only_inner(c, d)) {
+        Ok(r) => r,
+        Err(p) => Err((panic_signature(&p), format!("{} descriptor {:?}: is_valid / accessors panicked: {}", c.name(), d, p))),
+    }
+}
+fn membership_only_inner(c: Cons, d: (u8, char)) -> Result<(), (String, String)> {
     let want = c.pos_of(d.0, d.1).is_some();
     if !accessors_ok(c, d.0, d.1) {
         return Err((format!("c18:{}:accessors", c.name()), format!("{:?}: band()/attribute() do not return what new() was given", d)));
